@@ -2,7 +2,7 @@ use crate::json::{self, q, Obj};
 use crate::mir_dump::{path_of, peel_adt, span_loc, ty_str};
 use rustc_hir::def::DefKind;
 use rustc_infer::infer::TyCtxtInferExt;
-use rustc_middle::ty::print::with_no_trimmed_paths;
+use rustc_middle::ty::print::{with_no_trimmed_paths, with_no_visible_paths};
 use rustc_middle::ty::{self, Ty, TyCtxt, TypingEnv, TypingMode};
 use rustc_trait_selection::infer::InferCtxtExt;
 
@@ -138,7 +138,7 @@ pub fn dump_types<'tcx>(tcx: TyCtxt<'tcx>) -> String {
         if of_trait {
           let tr = tcx.impl_trait_ref(did).instantiate_identity().skip_norm_wip();
           o.s("trait", &path_of(tcx, tr.def_id));
-          o.s("trait_full", &with_no_trimmed_paths!(tr.to_string()));
+          o.s("trait_full", &with_no_visible_paths!(with_no_trimmed_paths!(tr.to_string())));
           let header = tcx.impl_trait_header(did);
           o.b("unsafe", header.safety.is_unsafe());
           o.b("negative", matches!(header.polarity, ty::ImplPolarity::Negative));
@@ -147,7 +147,7 @@ pub fn dump_types<'tcx>(tcx: TyCtxt<'tcx>) -> String {
         let preds = tcx.predicates_of(did);
         o.raw(
           "preds",
-          &json::arr(preds.predicates.iter().map(|(p, _)| q(&with_no_trimmed_paths!(p.to_string())))),
+          &json::arr(preds.predicates.iter().map(|(p, _)| q(&with_no_visible_paths!(with_no_trimmed_paths!(p.to_string()))))),
         );
         o.raw(
           "items",
